@@ -1677,3 +1677,75 @@ func scenSnapshotVsInstall(e *engineA) error {
 	e.sleepHB(4, 8)
 	return e.finish()
 }
+
+func init() { scenarios["slow-fsm"] = scenSlowFSM }
+
+// scenSlowFSM (C07 / C03): the leader's state machine is slow, so that
+// entries are committed well before they are applied. Barriers and reads are
+// submitted in exactly that window (everything accepted is committed, not
+// everything is applied), also while followers lag or leadership moves.
+func scenSlowFSM(e *engineA) error {
+	e.prof = profiles["load"]
+	if err := e.boot(3); err != nil {
+		return err
+	}
+	e.cl.startInfoSampler(e.hb() / 2)
+	l := e.cl.leader()
+	if l == nil {
+		return fmt.Errorf("no leader")
+	}
+	for i := 0; i < 3; i++ {
+		e.cl.fsmOp(1, l, "update")
+	}
+	e.rc.emit(&ev.Rec{K: "fault", Op: "slow-state-machine", Nid: l.nid})
+	e.pc.setSlow(l.dir, "fsm.beforeApply", e.hb()/3)
+	for round := 0; round < 8+e.rng.Intn(8); round++ {
+		cur := e.cl.leader()
+		if cur == nil {
+			e.sleepHB(1, 2)
+			continue
+		}
+		if cur != l {
+			e.pc.setSlow(cur.dir, "fsm.beforeApply", e.hb()/3)
+			l = cur
+		}
+		k := 1 + e.rng.Intn(3)
+		// the window: all of the leader's log is committed, not all of it is
+		// applied. (A status request would not show it: it is answered
+		// through the state machine's queue.) The leader's own commit event
+		// for its last entry opens it.
+		window := make(chan struct{}, 1)
+		curDir := cur.dir
+		var commits int32
+		e.rc.setOnNodeEvent(func(dir string, r *ev.Rec) {
+			if dir == curDir && r.K == "commit" && r.St != nil && r.St.State == "L" && r.Idx == r.St.Last {
+				if atomic.AddInt32(&commits, 1) >= int32(k) {
+					select {
+					case window <- struct{}{}:
+					default:
+					}
+				}
+			}
+		})
+		for i := 0; i < k; i++ {
+			go e.cl.fsmOp(2+i, cur, "update")
+		}
+		select {
+		case <-window:
+		case <-time.After(6 * e.hb()):
+		}
+		e.rc.setOnNodeEvent(nil)
+		op := "barrier"
+		if e.rng.Intn(3) == 0 {
+			op = "read"
+		}
+		e.cl.fsmOp(9, cur, op)
+		if e.rng.Intn(5) == 0 {
+			e.fault([]string{"isolate-leader", "transfer", "stall"}[e.rng.Intn(3)])
+		}
+	}
+	for _, n := range e.cl.liveNodes() {
+		e.pc.setSlow(n.dir, "fsm.beforeApply", 0)
+	}
+	return e.finish()
+}
